@@ -1,1 +1,156 @@
+/-
+  C13 — Which building operations are accepted follows the documented typestate.
+
+  The rules are stated outright on the model's `stepRaw` (PulserModel/Sequence.lean),
+  for every state (the guards only read the mode of the sequence, so no reachability
+  hypothesis is needed).  The model covers the non-parametrized API without the SLM
+  mask; the parametrized clause and `config_slm_mask` are covered by the harness
+  monitor only (and by the decorator table, see Generated/).
+-/
 import PulserModel.Sequence
+namespace Pulser
+namespace C13
+
+/-- The timeline-changing calls (everything except phase shifts and queries). -/
+def changesTimeline : Op → Bool
+  | .declare .. | .configDetMap .. | .target .. | .add .. | .addDmm .. | .addEom .. | .delay ..
+  | .align .. | .enableEom .. | .modifyEom .. | .disableEom .. | .measure .. => true
+  | _ => false
+
+/-- **After measurement every timeline-changing call is refused**, and leaves the
+sequence untouched. -/
+theorem measured_blocks_timeline (s : SeqState) (op : Op) (hm : s.measured.isSome = true)
+    (ht : changesTimeline op = true) :
+    (stepRaw s op).err = some .measured ∧ (stepRaw s op).st = s := by
+  cases op <;> simp [changesTimeline] at ht <;>
+    simp [stepRaw, hm, fail, store, markNonEmpty, targetCore, delayCore]
+
+/-- **A channel name can be declared once on any device.** -/
+theorem name_once (s : SeqState) (n chId : Nat) (init : Option (List Nat))
+    (hm : s.measured.isSome = false) (h : (s.getChan (.user n)).isSome = true) :
+    (stepRaw s (.declare (.user n) chId init)).err = some .nameInUse := by
+  simp [stepRaw, hm, h, fail]
+
+/-- **On a device without reusable channels each channel can be declared once**
+(once a mode is set, i.e. as soon as anything has been declared). -/
+theorem declare_once (s : SeqState) (n chId : Nat) (init : Option (List Nat)) (cfg : ChanCfg)
+    (hm : s.measured.isSome = false) (hn : (s.getChan (.user n)).isSome = false)
+    (hc : s.dev.chans[chId]? = some cfg) (hr : s.dev.reusable = false)
+    (hmode : s.inXY = true ∨ s.inIsing = true)
+    (hocc : s.occupied false chId = true) :
+    ∃ e, (stepRaw s (.declare (.user n) chId init)).err = some e ∧ e.isTypestate = true := by
+  have hav : s.available false chId cfg = false := by
+    unfold SeqState.available
+    rcases hmode with h | h <;> simp [h, hocc, hr]
+  simp only [stepRaw, hm, hn, hc, hav]
+  simp only [Bool.false_eq_true, if_false, Bool.not_false, if_true]
+  split
+  · exact ⟨_, rfl, rfl⟩
+  · split
+    · exact ⟨_, rfl, rfl⟩
+    · exact ⟨_, rfl, rfl⟩
+
+/-- ... and likewise each DMM can be configured once. -/
+theorem dmm_once (s : SeqState) (dmmId : Nat) (w1 w2 : Rat) (cfg : ChanCfg)
+    (hm : s.measured.isSome = false) (hc : s.dev.dmms[dmmId]? = some cfg)
+    (hr : s.dev.reusable = false) (hx : s.inXY = false) (hi : s.inIsing = true)
+    (hocc : s.occupied true dmmId = true) :
+    (stepRaw s (.configDetMap dmmId w1 w2)).err = some .notAvailable := by
+  have hav : s.available true dmmId cfg = false := by
+    unfold SeqState.available; simp [hx, hi, hocc, hr]
+  simp [stepRaw, hm, hc, hx, hav, fail]
+
+/-- **Microwave (XY) channels never coexist with other channels**: in XY mode a non-XY
+channel is refused, outside it (Ising mode) an XY channel is refused. -/
+theorem xy_exclusive (s : SeqState) (n chId : Nat) (init : Option (List Nat)) (cfg : ChanCfg)
+    (hm : s.measured.isSome = false) (hn : (s.getChan (.user n)).isSome = false)
+    (hc : s.dev.chans[chId]? = some cfg)
+    (h : (s.inXY = true ∧ cfg.basis ≠ .xy) ∨ (s.inXY = false ∧ s.inIsing = true ∧ cfg.basis = .xy)) :
+    (stepRaw s (.declare (.user n) chId init)).err = some .xyConflict := by
+  have hav : s.available false chId cfg = false := by
+    unfold SeqState.available
+    rcases h with ⟨h1, h2⟩ | ⟨h1, h2, h3⟩
+    · simp [h1, h2]
+    · simp [h1, h2, h3]
+  simp only [stepRaw, hm, hn, hc, hav]
+  rcases h with ⟨h1, h2⟩ | ⟨h1, h2, h3⟩
+  · simp [h1, h2, fail]
+  · simp [h1, h3, fail]
+
+/-- ... nor with DMMs. -/
+theorem xy_excludes_dmm (s : SeqState) (dmmId : Nat) (w1 w2 : Rat) (cfg : ChanCfg)
+    (hm : s.measured.isSome = false) (hc : s.dev.dmms[dmmId]? = some cfg) (hx : s.inXY = true) :
+    (stepRaw s (.configDetMap dmmId w1 w2)).err = some .xyConflict := by
+  simp [stepRaw, hm, hc, hx, fail]
+
+/-- **While a channel is in EOM mode ordinary pulses and retargets are refused on it.** -/
+theorem eom_only_eom_ops (s : SeqState) (n : ChName) (c : ChanState) (hm : s.measured.isSome = false)
+    (hc : s.getChan n = some c) (he : c.inEomMode = true) :
+    (∀ p proto, (stepRaw s (.add p n proto)).err = some .inEom) ∧
+    (∀ qs, (stepRaw s (.target qs n)).err = some .inEom) ∧
+    (∀ e, (stepRaw s (.enableEom n e)).err = some .alreadyInEom) := by
+  refine ⟨fun p proto => ?_, fun qs => ?_, fun e => ?_⟩
+  · simp [stepRaw, hm, SeqState.validateChannel, hc, he, fail, store, markNonEmpty]
+  · simp [stepRaw, targetCore, hm, SeqState.validateChannel, hc, he, fail, store]
+  · simp [stepRaw, hm, SeqState.validateChannel, hc, he, fail]
+
+/-- **EOM pulses and EOM controls are refused outside EOM mode.** -/
+theorem eom_pulse_needs_eom (s : SeqState) (n : ChName) (c : ChanState)
+    (hm : s.measured.isSome = false) (hc : s.getChan n = some c) (he : c.inEomMode = false) :
+    (∀ d ph po pr co fs fe r, (stepRaw s (.addEom n d ph po pr co fs fe r)).err = some .notInEom) ∧
+    (∀ e, (stepRaw s (.modifyEom n e)).err = some .notInEom) ∧
+    (∀ co, (stepRaw s (.disableEom n co)).err = some .notInEom) := by
+  have hb : ∀ b, c.eom.getLast? = some b → b.tf.isSome = true := by
+    intro b hb
+    unfold ChanState.inEomMode at he
+    rw [hb] at he
+    cases h : b.tf <;> simp_all
+  refine ⟨fun d ph po pr co fs fe r => ?_, fun e => ?_, fun co => ?_⟩
+  · cases hl : c.eom.getLast? with
+    | none => simp [stepRaw, hm, SeqState.validateChannel, hc, hl, fail, store, markNonEmpty]
+    | some b => simp [stepRaw, hm, SeqState.validateChannel, hc, hl, hb b hl, fail, store, markNonEmpty]
+  · simp [stepRaw, hm, SeqState.validateChannel, hc, he, fail]
+  · simp [stepRaw, hm, SeqState.validateChannel, hc, he, fail, store]
+
+/-- **A local channel needs a target before its first pulse** (a channel without any
+instruction refuses pulses, delays and EOM pulses with "no target"). -/
+theorem local_needs_target (s : SeqState) (n : ChName) (c : ChanState) (p : PulseIn)
+    (proto : Protocol) (hm : s.measured.isSome = false) (hc : s.getChan n = some c)
+    (hd : c.cfg.isDmm = false) (he : c.inEomMode = false) (hs : c.slots = []) :
+    (stepRaw s (.add p n (some proto))).err = some .noTarget := by
+  have hl : c.last = .error .noTarget := by unfold ChanState.last; rw [hs]; rfl
+  simp [stepRaw, hm, SeqState.validateChannel, hc, he, hd, addCore, hl, fail, store, markNonEmpty]
+
+/-- Operations on a name that was never declared are refused. -/
+theorem undeclared_refused (s : SeqState) (n : ChName) (hm : s.measured.isSome = false)
+    (hc : s.getChan n = none) :
+    (∀ p proto, (stepRaw s (.add p n proto)).err = some .notDeclared) ∧
+    (∀ d r, (stepRaw s (.delay d n r)).err = some .notDeclared) ∧
+    (∀ qs, (stepRaw s (.target qs n)).err = some .notDeclared) := by
+  refine ⟨fun p proto => ?_, fun d r => ?_, fun qs => ?_⟩
+  · simp [stepRaw, hm, SeqState.validateChannel, hc, fail, store, markNonEmpty]
+  · simp [stepRaw, delayCore, hm, SeqState.validateChannel, hc, fail, store]
+  · simp [stepRaw, targetCore, hm, SeqState.validateChannel, hc, fail, store]
+
+/-! ### Non-vacuity -/
+
+def exDev : Device :=
+  { chans := [{ clock := 4, minDur := 16, isLocal := true, basis := .digital },
+              { clock := 4, minDur := 16, basis := .xy }],
+    dmms := [], reusable := false, maxSeqDur := none }
+
+def s1 : SeqState := run (SeqState.init exDev 2) [.declare (.user 0) 0 none]
+
+example : s1.measured.isSome = false ∧ (s1.getChan (.user 0)).isSome = true ∧ s1.inIsing = true ∧
+    s1.occupied false 0 = true := by decide +kernel
+
+example : (stepRaw s1 (.add { dur := 100 } (.user 0) (some .minDelay))).err = some .noTarget := by
+  decide +kernel
+
+example : (stepRaw s1 (.declare (.user 1) 1 none)).err = some .xyConflict := by decide +kernel
+
+example : (stepRaw (run s1 [.measure .digital]) (.delay 100 (.user 0) false)).err = some .measured := by
+  decide +kernel
+
+end C13
+end Pulser
